@@ -1036,6 +1036,19 @@ Error JitAllocator::release(void* rx) noexcept {
 
   // The first bit representing the allocated area and its size.
   uint32_t area_index = uint32_t(offset >> pool->granularity_log2);
+
+  // Only a pointer returned by `alloc()` can be released - it must point to the first granule of a used area that is not
+  // the initial padding of the block. Anything else (a pointer to the padding, to the middle of a span, or to memory that
+  // has already been released) would silently corrupt the bookkeeping of areas that are still in use.
+  bool is_span_start = Support::bit_vector_get_bit(block->_used_bit_vector, area_index) &&
+                       (offset & (size_t(pool->granularity) - 1u)) == 0u &&
+                       area_index >= block->initial_area_start() &&
+                       (area_index == 0u || Support::bit_vector_get_bit(block->_stop_bit_vector, area_index - 1u) ||
+                        !Support::bit_vector_get_bit(block->_used_bit_vector, area_index - 1u));
+  if (ASMJIT_UNLIKELY(!is_span_start)) {
+    return make_error(Error::kInvalidArgument);
+  }
+
   uint32_t area_end = uint32_t(Support::bit_vector_index_of(block->_stop_bit_vector, area_index, true)) + 1;
   uint32_t area_size = area_end - area_index;
 
